@@ -437,6 +437,49 @@ func cllFair(c *Ctx, sc clScenario, events map[int]string, rounds int) *cllWalk 
 	return w
 }
 
+// cllSupersede: known finding supersedeRace, deterministically — the rollout of v2 is rolling with its current batch ready;
+// the user pushes v3; the BatchRelease controller and the CloneSet controller run a few times before the Rollout
+// controller reconciles; then fair rounds to the end
+func cllSupersede(c *Ctx, sc clScenario) *cllWalk {
+	w := cllNewWalk(c, sc)
+	w.fair = true
+	for r := 0; r < 2; r++ {
+		for _, l := range cllRound {
+			w.do(l)
+		}
+	}
+	w.do("release:v2")
+	for r := 0; r < 40; r++ {
+		cs := w.s.cllJoint()
+		if cs.Ro != nil && cs.Ro.Reason == "inRolling" && cs.Br != nil && cs.Br.St.BatchState == "Ready" && cs.Wl != nil && cs.Wl.Owner == "this" {
+			break
+		}
+		for _, l := range cllRound {
+			if l == "approve" && !w.manualPause() {
+				continue
+			}
+			w.do(l)
+		}
+	}
+	w.do("release:v3")
+	for i := 0; i < 4; i++ {
+		w.do("br")
+		w.do("env")
+	}
+	for r := 0; r < 20*(len(sc.Steps)+4); r++ {
+		for _, l := range cllRound {
+			if l == "approve" && !w.manualPause() {
+				continue
+			}
+			w.do(l)
+		}
+		if w.s.terminal() {
+			break
+		}
+	}
+	return w
+}
+
 func cllPickLabel(c *Ctx, released *int, deleted *bool, allowEvents bool) string {
 	x := c.Rng.Intn(100)
 	switch {
@@ -459,7 +502,7 @@ func cllPickLabel(c *Ctx, released *int, deleted *bool, allowEvents bool) string
 			return "ro"
 		}
 		*released++
-		return "release:" + pickS(c, "v2", "v3", "v1", "v2", "v3")
+		return "release:?"
 	default:
 		if !allowEvents || *deleted {
 			return "br"
@@ -488,7 +531,22 @@ func cllRandom(c *Ctx, sc clScenario, n int) *cllWalk {
 			}
 			continue
 		}
-		w.do(cllPickLabel(c, &released, &deleted, true))
+		l := cllPickLabel(c, &released, &deleted, true)
+		if l == "release:?" {
+			// a release is a change of the pod template: never the revision that already is the update revision
+			cur := ""
+			if cs := w.s.cllJoint(); cs.Wl != nil {
+				cur = cs.Wl.UpdateRevision
+			}
+			var cand []string
+			for _, r := range []string{"v1", "v2", "v3"} {
+				if r != cur {
+					cand = append(cand, r)
+				}
+			}
+			l = "release:" + cand[c.Rng.Intn(len(cand))]
+		}
+		w.do(l)
 	}
 	return w
 }
@@ -500,6 +558,12 @@ func runClosedLoop(c *Ctx) {
 	}
 	scens := clScenarios(c, nScen)
 	budget := c.N
+	for i, sc := range scens {
+		if i < 2 {
+			w := cllSupersede(c, sc)
+			w.trace()
+		}
+	}
 	for c.Count < budget {
 		before := c.Count
 		for _, sc := range scens {
